@@ -52,6 +52,8 @@ def pSnapPart (s : String) : Option (Bytes × Snap) :=
 
 def pPayload (s : String) : Option Payload :=
   if s == "-" then some {}
+  else if s == "null" then
+    some { delta := none, view := .raw [110, 117, 108, 108], term := some (.none, 0, []), empty := false, isNull := true }
   else if s.startsWith "x" then
     match hexDecode (s.drop 1).toString with
     | some (33 :: r) => some { delta := none, view := .raw (33 :: r), term := none, empty := false }
@@ -173,6 +175,7 @@ def judgeEvent (j : JSt) (raw : RawEvent) (node : Bool) (impl : String) : JSt ×
     | ["cachemiss"] => (j, "ok")
     | ["notleader"] => (j, "ok")
     | ["backpressure"] => (j, "ok")
+    | ["panic"] => (j, "viol:panic-null-terminal-payload")
     | "ok" :: k :: sq :: st :: ls :: rest =>
       match hexDecode k, sq.toNat?, pSt st, pObs rest, pLane ls with
       | some k, some sq, some st, some new, some rl =>
@@ -306,12 +309,13 @@ def c40Step (j : JSt) (op impl : String) : JSt × String × String :=
     match pRaw rest with
     | none => (j, "bad-op", "ok")
     | some raw =>
-      let (n', e, res) := nstep j.n raw
+      let (n', e, res) := nstepP j.n raw
       let out := match e, res, normalize raw with
         | .ok, some r, some ev => "ok " ++ resStr r ++ " " ++ obsStr (obsOf n'.db ev.msg)
         | .cachemiss, _, _ => "cachemiss"
         | .notleader, _, _ => "notleader"
         | .backpressure, _, _ => "backpressure"
+        | .panic, _, _ => "panic"
         | _, _, _ => "invalid"
       let j1 := { j with n := n' }
       let (j2, v) := judgeEvent j1 raw true impl
